@@ -132,16 +132,24 @@ def analyse_loop(text: str) -> dict:
     cb = nested["_close_listener_if_idle"]
     cbb = _strip_nonlocal(_body(cb))
     params = [a.arg for a in cb.args.args]
-    checks_current = False
+    check_form = None  # None | "plain" (`timer is not P`) | "guarded" (`P is None or timer is not P`)
     cb_ok = False
+
+    def _is_not(t: ast.AST, pname: str) -> bool:
+        return (isinstance(t, ast.Compare) and len(t.ops) == 1 and isinstance(t.ops[0], ast.IsNot) and _u(t.left) == "timer"
+                and _u(t.comparators[0]) == pname)
+
     if len(cbb) == 1 and _is_lock_with(cbb[0]):
         wb = list(cbb[0].body)
         if wb and isinstance(wb[0], ast.If) and len(params) == 1:
             t = wb[0].test
-            if (isinstance(t, ast.Compare) and len(t.ops) == 1 and isinstance(t.ops[0], ast.IsNot) and _u(t.left) == "timer"
-                    and _u(t.comparators[0]) == params[0] and len(wb[0].body) == 1 and isinstance(wb[0].body[0], ast.Return)
-                    and wb[0].body[0].value is None and not wb[0].orelse):
-                checks_current = True
+            ret_only = len(wb[0].body) == 1 and isinstance(wb[0].body[0], ast.Return) and wb[0].body[0].value is None and not wb[0].orelse
+            if ret_only and _is_not(t, params[0]):
+                check_form = "plain"
+                wb = wb[1:]
+            elif (ret_only and isinstance(t, ast.BoolOp) and isinstance(t.op, ast.Or) and len(t.values) == 2
+                  and _u(t.values[0]) == f"{params[0]} is None" and _is_not(t.values[1], params[0])):
+                check_form = "guarded"
                 wb = wb[1:]
         cb_ok = (
             len(wb) == 3
@@ -150,28 +158,39 @@ def analyse_loop(text: str) -> dict:
             and isinstance(wb[1].body[0], ast.Return) and not wb[1].orelse
             and _u(wb[2]) == "shutdown_requested = True"
         )
-    # ---- arm / cancel
+    # ---- arm: which object does the callback get, and WHEN is that decided?
+    #   "none"  Timer(seconds, _close_listener_if_idle)
+    #   "early" X = Timer(seconds, lambda: cb(X)) … timer = X      X is a local of _arm_timer_locked, assigned once: every arming has
+    #                                                              its own cell, the lambda sees the timer it belongs to
+    #   "late"  timer = Timer(seconds, lambda: cb(timer))          the lambda reads the SHARED variable when it runs
     arm = nested["_arm_timer_locked"]
     ab = _strip_nonlocal(_body(arm))
+    shared = {n for st in arm.body if isinstance(st, (ast.Nonlocal, ast.Global)) for n in st.names}
     arm_ok = False
-    passes_self = False
+    binding = None
     if ab and isinstance(ab[0], ast.If) and _u(ab[0].test) == "timer is not None" and [_u(x) for x in ab[0].body] == ["timer.cancel()"]:
         rest = [_u(x) for x in ab[1:]]
         if rest == ["timer = threading.Timer(seconds, _close_listener_if_idle)", "timer.daemon = True", "timer.start()"]:
-            arm_ok = True
+            arm_ok, binding = True, "none"
+        elif rest == ["timer = threading.Timer(seconds, lambda: _close_listener_if_idle(timer))", "timer.daemon = True", "timer.start()"]:
+            arm_ok, binding = True, ("late" if "timer" in shared else None)
         elif len(ab) == 5 and isinstance(ab[1], ast.Assign) and isinstance(ab[1].targets[0], ast.Name):
             x = ab[1].targets[0].id
+            stores = [n for n in ast.walk(arm) if isinstance(n, ast.Name) and n.id == x and isinstance(n.ctx, ast.Store)]
             if (_u(ab[1].value) == f"threading.Timer(seconds, lambda: _close_listener_if_idle({x}))"
-                    and rest[1:] == [f"{x}.daemon = True", f"timer = {x}", "timer.start()"]):
-                arm_ok = True
-                passes_self = True
+                    and rest[1:] == [f"{x}.daemon = True", f"timer = {x}", "timer.start()"]
+                    and x not in shared and x not in SHARED and len(stores) == 1):
+                arm_ok, binding = True, "early"
+    code = {("none", None): 0, ("early", "plain"): 1, ("early", "guarded"): 1, ("late", "guarded"): 2, ("late", "plain"): 3}.get(
+        (binding, check_form))
     cancel = nested["_cancel_timer_locked"]
     cb2 = _strip_nonlocal(_body(cancel))
     cancel_ok = (len(cb2) == 1 and isinstance(cb2[0], ast.If) and _u(cb2[0].test) == "timer is not None"
                  and [_u(x) for x in cb2[0].body] == ["timer.cancel()", "timer = None"] and not cb2[0].orelse)
-    out["callbackChecksCurrent"] = bool(checks_current and passes_self)
-    # the callback signature and the way it is armed must agree (a check without the identity, or the identity without the check, is neither shape)
-    out["timerShape"] = bool(cb_ok and arm_ok and cancel_ok and start_ok and (checks_current == passes_self))
+    out["callbackCheck"] = 0 if code is None else code
+    out["callbackChecksCurrent"] = code == 1
+    # the test in the callback and the way the callback is armed must be one of the modelled combinations
+    out["timerShape"] = bool(cb_ok and arm_ok and cancel_ok and start_ok and code is not None)
 
     # ---- handler
     h = nested["_handle"]
@@ -327,6 +346,24 @@ def analyse_launcher(text: str, ttext: str) -> dict:
         # nothing after the guarded section
         shape = bool(acq_ok and body_ok and fin_ok and lb[-1] is t1)
     out["launchShape"] = shape
+
+    # the lock file is keyed by the socket itself: a sibling of the socket (same directory entry namespace), so whatever spelling
+    # of the socket's path a caller uses, the file system resolves socket and lock alike
+    sib_explicit = False
+    hash_branch = False
+    for n in ast.walk(launch):
+        if isinstance(n, ast.If) and _u(n.test) == "config.socket_path is not None":
+            for st in n.body:
+                if isinstance(st, ast.Assign) and _u(st.targets[0]) == "lock_path":
+                    sib_explicit = _u(st.value) == "sock_path.with_suffix(sock_path.suffix + '.lock')"
+            for st in n.orelse:
+                if isinstance(st, ast.Assign) and _u(st.targets[0]).replace("(", "").replace(")", "") == "lock_path, sock_path_p, meta_path":
+                    hash_branch = _u(st.value) == "_socket_paths(state_dir, hash_id)"
+    sp = _body(_fn(tree, "_socket_paths"))
+    sp_ok = len(sp) == 1 and isinstance(sp[0], ast.Return) and _u(sp[0].value).replace(" ", "") == (
+        "(state_dir/f'{hash_id}.lock',state_dir/f'{hash_id}.sock',state_dir/f'{hash_id}.meta')")
+    lock_assigns = [n for n in ast.walk(launch) if isinstance(n, ast.Assign) and any("lock_path" in _u(t) for t in n.targets)]
+    out["lockKeyedBySocket"] = bool(sib_explicit and hash_branch and sp_ok and len(lock_assigns) == 2)
 
     gc = _fn(tree, "gc_state_dir")
     loops = [n for n in _body(gc) if isinstance(n, ast.For)]
@@ -488,6 +525,12 @@ def callbackChecksCurrent : Bool := {_b(a["callbackChecksCurrent"])}
 of `_handle`, i.e. it runs in the connection's own thread, whenever that thread gets to run -/
 def registersInHandler : Bool := {_b(a["registersInHandler"])}
 
+/-- the stale-callback test and the binding of its argument: 0 = no test (`Timer(seconds, _close_listener_if_idle)`);
+1 = `timer is not fired` with `fired` bound EARLY to the callback's own timer (`armed = Timer(…, lambda: cb(armed)); timer = armed`
+— `armed` a local of `_arm_timer_locked` assigned once); 2 / 3 = the lambda passes the shared variable `timer`, read when the
+timer fires (late-binding closure; 2 = with a `fired is None or` guard, 3 = without): the test compares `timer` with itself -/
+def callbackCheck : Nat := {a["callbackCheck"]}
+
 /-- every access to `conn_count` / `timer` / `shutdown_requested` after their initialisation is inside
 `with state_lock:` (directly, or in a `*_locked` helper that is only called there) -/
 def sharedUnderLock : Bool := {_b(a["sharedUnderLock"])}
@@ -525,6 +568,11 @@ def gcShape : Bool := {_b(l["gcShape"])}
 and `finally: sock.close(); _unlink_bound_unix_socket(path, identity)` where the latter is `lstat` → identity
 comparison → `unlink` (three separate steps); `serve_tcp` hands `idle_timeout` to the same loop -/
 def workerExitShape : Bool := {_b(l["workerExitShape"])}
+
+/-- `launch`: the lock file is a sibling of the socket named after it (`<sock>.lock` for an explicit `socket_path`;
+`<hash>.lock` next to `<hash>.sock` from `_socket_paths`): lock identity is a function of the socket's identity, not of the
+spelling of its path -/
+def lockKeyedBySocket : Bool := {_b(l["lockKeyedBySocket"])}
 
 /-- `serve_unix`: `sock.bind` < `sock.listen` < `on_bound(path)` < the accept loop, in this order: the socket listens when the
 `UNIX:<path>` announcement (on which `_spawn_worker`, hence `launch`, returns) is written -/
